@@ -41,6 +41,10 @@ def materialise(kind, payloads):
     n = len(payloads)
     if kind == "dict":
         return list(payloads), None
+    if kind.startswith("slow:"):
+        from .spawn_cases import callbacks
+
+        return [callbacks.SlowHandle(p, float(kind.split(":")[1])) for p in payloads], None
     if kind == "int":
         handles = list(range(n))
     elif kind == "bytes":
@@ -54,7 +58,9 @@ def materialise(kind, payloads):
     return handles, {h: p for h, p in zip(handles, payloads)}
 
 
-def gen_args(rng, combo, cms_kind=None):
+def gen_args(rng, combo, cms_kind=None, items=None):
+    """Constructor arguments for the requested sketches.  With `items`, the HyperLogLog seed is sometimes crafted (by inverting the
+    reference hash) so that a key of the workload hashes to all-zero rank bits, i.e. its register takes the maximum value 64-p+1."""
     args = {}
     if "cms" in combo:
         kind = cms_kind or pick(rng, ["linear", "linear", "log16", "log8"])
@@ -67,6 +73,14 @@ def gen_args(rng, combo, cms_kind=None):
         args["hh_args"] = {"width": int(rng.integers(1, 5)), "depth": int(rng.integers(1, 4)), "max_key_len": pick(rng, [2, 4, 8])}
     if "hll" in combo:
         args["hll_args"] = {"p": int(rng.integers(7, 10)), "seed": pick(rng, [0, 7, 2**63 + 5])}
+        if items and rng.random() < 0.4:
+            from .refs import hashes_ref
+
+            short = [unhx(k) for it in items for k, _m in it.get("keys", []) if len(unhx(k)) < 8]
+            if short:
+                key = short[int(rng.integers(0, len(short)))]
+                idx = int(rng.integers(0, 1 << args["hll_args"]["p"]))
+                args["hll_args"]["seed"] = hashes_ref.seed_for_target(key, idx)  # hash == idx: every rank bit is zero
     return args
 
 
@@ -108,6 +122,8 @@ def check_result(mon, sketches, combo, args, items, det):
         want = hll_ref.registers_for(list(stream), a["p"], a["seed"])
         bad = np.flatnonzero(np.asarray(h.registers) != want)
         mon.check(len(bad) == 0, "hll-registers==sequential-result", n_bad=int(len(bad)), first=bad[:4].tolist(), **det)
+        if int(want.max(initial=0)) == 64 - a["p"] + 1:
+            mon.count("hll_results_holding_a_maximum_rank_register")
         seq = state.make({"kind": "hll", "p": a["p"], "seed": a["seed"]})
         for it in adds:
             for k, v in it["keys"]:
